@@ -256,7 +256,7 @@ def observe_h5(path, f, emb):
     return view, exact
 
 
-def write_legacy(df, path, f, emb, side):
+def write_legacy(df, path, f, emb, side, sw=()):
     """independent h5py writer of the layout used before the file-version attribute:
     datasets field/mesh/region/p1, p2, field/mesh/n, field/dim, field/array; subregions in the json side-car"""
     nd = len(f["n"])
@@ -270,8 +270,11 @@ def write_legacy(df, path, f, emb, side):
         g = h.create_group("field")
         m = g.create_group("mesh")
         r = m.create_group("region")
-        r.create_dataset("p1", data=np.array([corner(emb, q, f["rtag"]) for q in f["lo"]]))
-        r.create_dataset("p2", data=np.array([corner(emb, q, f["rtag"]) for q in hi]))
+        # the two corner points as the user gave them: along the axes in `sw` p1 holds the upper coordinate
+        p1 = [hi[d] if (d + 1) in sw else f["lo"][d] for d in range(nd)]
+        p2 = [f["lo"][d] if (d + 1) in sw else hi[d] for d in range(nd)]
+        r.create_dataset("p1", data=np.array([corner(emb, q, f["rtag"]) for q in p1]))
+        r.create_dataset("p2", data=np.array([corner(emb, q, f["rtag"]) for q in p2]))
         m.create_dataset("n", data=np.array(f["n"], dtype=np.int64))
         g.create_dataset("dim", data=int(f["nv"]))
         g.create_dataset("array", data=arr)
@@ -415,7 +418,7 @@ def exec_state(df, st, emb, part, scratch, tag):
             part.violation(f"{clause}/write-raises/{sk}", "Field.to_file raises on a valid field", wit(exc=err))
             return
     else:
-        write_legacy(df, path, f, emb, bool(fl["side"]))
+        write_legacy(df, path, f, emb, bool(fl["side"]), tuple(int(d) for d in fl.get("sw", ())))
     if kind in ("write", "overwrite"):
         ok, res = try_call(lambda: observe_h5(path, f, emb))
         if not ok:
@@ -548,8 +551,9 @@ def gen_trace(df, rnd, tid, scratch):
                 ev.append({"k": "read", "ok": False, "exact": True, "exc": g.split(":")[0]})
         else:
             side = bool(subs) and rnd.random() < 0.5
-            write_legacy(df, path, f, emb, side)
-            ev.append({"k": "legacy", "side": side})
+            swb = [rnd.random() < 0.35 for _ in f["n"]]   # axes along which the stored p1 is the upper corner
+            write_legacy(df, path, f, emb, side, tuple(d + 1 for d, b in enumerate(swb) if b))
+            ev.append({"k": "legacy", "side": side, "sw": swb})
             ok, g = try_call(lambda: df.Field.from_file(path))
             if ok:
                 rec, gexact = observe_field(g, f, emb)
